@@ -198,8 +198,8 @@ const NAME_WORDS: &[&str] = &[
     "tomato", "rice", "Öl", "milk", "crème\u{a0}fraîche", "de\u{3000}sel", "ﬂour", "Straße",
 ];
 const SINGLE_WORDS: &[&str] = &["salt", "flour", "Water", "égg", "漢字", "bread1", "sugar", "pot", "pan", "butter", "1", "rice", "Öl"];
-const UNITS_MASS: &[&str] = &["g", "kg", "gram", "grams", "oz", "lb", "mg"];
-const UNITS_VOL: &[&str] = &["ml", "l", "L", "cup", "cups", "tsp", "tbsp", "fl oz", "liters", "dl"];
+const UNITS_MASS: &[&str] = &["g", "kg", "gram", "grams", "oz", "lb", "mg", "dag", "hg", "decagrams"];
+const UNITS_VOL: &[&str] = &["ml", "l", "L", "cup", "cups", "tsp", "tbsp", "fl oz", "liters", "dl", "dal", "cl", "decilitre"];
 const UNITS_TIME: &[&str] = &["min", "minutes", "h", "hours", "s", "sec", "secs", "hour", "d", "minute"];
 const UNITS_UNKNOWN: &[&str] = &["pinch", "cloves", "sprigs", "big handfuls", "cans", "pieces"];
 const TEXT_VALUES: &[&[&str]] = &[&["some"], &["a", "pinch"], &["to", "taste"], &["half", "a", "dozen"], &["few"]];
@@ -245,14 +245,16 @@ pub struct GenOpts {
     pub mix_ref_classes: bool,
     /// text values like `{2 1/2 cups}` without `%` (only where ADVANCED_UNITS is certainly off)
     pub spaced_unit_text: bool,
+    /// components written inside text-mode steps (they stay text, with a documented warning each)
+    pub text_mode_components: bool,
 }
 
 impl GenOpts {
     pub fn canonical() -> Self {
-        GenOpts { extended: false, core: true, max_sections: 3, max_blocks: 4, max_items: 7, timers_need_time: false, mix_ref_classes: false, spaced_unit_text: true }
+        GenOpts { extended: false, core: true, max_sections: 3, max_blocks: 4, max_items: 7, timers_need_time: false, mix_ref_classes: false, spaced_unit_text: true, text_mode_components: true }
     }
     pub fn extended() -> Self {
-        GenOpts { extended: true, core: false, max_sections: 3, max_blocks: 4, max_items: 7, timers_need_time: true, mix_ref_classes: false, spaced_unit_text: false }
+        GenOpts { extended: true, core: false, max_sections: 3, max_blocks: 4, max_items: 7, timers_need_time: true, mix_ref_classes: false, spaced_unit_text: false, text_mode_components: true }
     }
     /// extended, with references free to change the quantity class (not warning-free)
     pub fn extended_mixed() -> Self {
@@ -260,7 +262,7 @@ impl GenOpts {
     }
     /// the subset C02 calls core syntax
     pub fn core() -> Self {
-        GenOpts { extended: false, core: true, max_sections: 3, max_blocks: 4, max_items: 7, timers_need_time: true, mix_ref_classes: false, spaced_unit_text: false }
+        GenOpts { extended: false, core: true, max_sections: 3, max_blocks: 4, max_items: 7, timers_need_time: true, mix_ref_classes: false, spaced_unit_text: false, text_mode_components: true }
     }
 }
 
@@ -577,6 +579,32 @@ impl<'a> Gen<'a> {
         let mut planted_inline = false;
         for i in 0..n {
             let comp = self.rng.chance(1, 2) && !self.mode_text;
+            if self.mode_text && self.o.text_mode_components && self.rng.chance(1, 3) {
+                // text mode: a component is not parsed as one, its source (name, braces, note) stays in the text verbatim;
+                // it defines nothing, so it is not registered
+                let kind = match self.rng.below(6) {
+                    0..=2 => Kind::Ingredient,
+                    3 | 4 => Kind::Cookware,
+                    _ => Kind::Timer,
+                };
+                if let Some(Item::Comp(_)) = items.last() {
+                    items.push(Item::Text(vec![Tok::Gap]));
+                }
+                let name = self.fresh_name(kind);
+                let mut c = self.definition(kind, name);
+                if kind == Kind::Timer {
+                    c.note = None;
+                    c.alias = None;
+                    c.mods.clear();
+                    if c.qty.is_none() {
+                        c.qty = Some(self.qty(kind, None));
+                    }
+                } else if c.note.is_none() && self.rng.coin() {
+                    c.note = Some(words(self.rng, NOTE_WORDS, 1, 3));
+                }
+                items.push(Item::Comp(c));
+                continue;
+            }
             if comp {
                 let kind = match self.rng.below(6) {
                     0..=2 => Kind::Ingredient,
@@ -805,6 +833,8 @@ struct Sp<'a> {
     out: String,
     /// the current physical line has non-blank, non-comment content
     line_content: bool,
+    /// byte ranges of `out` that are comments (block or line)
+    comment_spans: Vec<(usize, usize)>,
     constructs: Vec<&'static str>,
     extended: bool,
     // --- reference semantics state
@@ -906,6 +936,7 @@ impl<'a> Sp<'a> {
     }
     /// emit a comment (does not count as line content)
     fn emit_comment(&mut self, s: &str) {
+        self.comment_spans.push((self.out.len(), self.out.len() + s.len()));
         self.out.push_str(s);
     }
     fn comment_body(&mut self) -> &'static str {
@@ -1427,11 +1458,18 @@ impl<'a> Sp<'a> {
                     let (name, alias, q, note) = self.component_src(c, next_safe);
                     self.mask = save_mask;
                     if self.mode == 3 {
-                        // R18 text mode: the component's source stays verbatim in the text
-                        // (with soft breaks inside it read as written)
-                        let src = self.out[src_start..].to_string();
+                        // R18 text mode: the component's source stays in the text as written (with soft breaks inside
+                        // it read as written), without the comments inside it — like any other text
+                        let mut src = String::new();
+                        let mut at = src_start;
+                        for (a, b) in self.comment_spans.iter().copied().filter(|(a, _)| *a >= src_start) {
+                            src.push_str(&self.out[at..a]);
+                            at = b;
+                        }
+                        src.push_str(&self.out[at..]);
                         pending.push_str(&src);
                         text_mode_src.push_str(&src);
+                        self.constructs.push(if c.note.is_some() { "text_mode_component_with_note" } else { "text_mode_component" });
                         continue;
                     }
                     if self.mode != 1 {
@@ -1717,6 +1755,7 @@ pub fn spell(spec: &Spec, seed: u64, mask: u32, level: u32) -> Spelled {
         used: 0,
         out: String::new(),
         line_content: false,
+        comment_spans: Vec::new(),
         constructs: Vec::new(),
         extended: spec.extended,
         ingredients: vec![],
